@@ -7,7 +7,9 @@ change the behaviour it observes); each contract counts its evaluations and a ch
 whose ambient contracts were never evaluated says so.
 
   A1  after replace_status_block_segment(offset, segment) with the segment inside the
-      block, the block is still 1024 bytes (both structure classes);
+      block, the block has the length it had before - 1024 bytes on every connection (both
+      structure classes; the repository's own tests, run with the contracts on, use 23-byte
+      blocks: the first form of A1, "still 1024 bytes", fired on them - read, and generalised);
   A2  get_and_increment_sequence_counter returns the cycle successor of the previous
       result of the same kind on the same object (both counter classes);
 A violation is *reported* only by the checks whose property states the invariant (A1:
@@ -24,9 +26,13 @@ _installed = False
 _last = weakref.WeakKeyDictionary()
 
 
-def _a1(self, offset, segment):
+def _block_len(self):
+    return len(self.status_block)
+
+
+def _a1(self, offset, segment, OLD):
     EVALS["A1"] += 1
-    if 0 <= offset and offset + len(segment) <= 1024 and len(self.status_block) != 1024:
+    if 0 <= offset and offset + len(segment) <= OLD.n and len(self.status_block) != OLD.n:
         if len(BROKEN) < 20:
             BROKEN.append(("A1:block-length", f"{type(self).__name__}: block is {len(self.status_block)} bytes after replacing {len(segment)} byte(s) at {offset}", {"offset": offset, "segment_len": len(segment), "block_len": len(self.status_block)}))
     return True
@@ -61,7 +67,7 @@ def install():
     from geckolib.driver import GeckoAsyncStructure, GeckoAsyncUdpProtocol, GeckoStructure, GeckoUdpSocket
 
     for cls in (GeckoAsyncStructure, GeckoStructure):
-        cls.replace_status_block_segment = icontract.ensure(_a1, error=ContractBroken)(cls.replace_status_block_segment)
+        cls.replace_status_block_segment = icontract.snapshot(_block_len, name="n")(icontract.ensure(_a1, error=ContractBroken)(cls.replace_status_block_segment))
     for cls in (GeckoAsyncUdpProtocol, GeckoUdpSocket):
         cls.get_and_increment_sequence_counter = icontract.ensure(_a2, error=ContractBroken)(cls.get_and_increment_sequence_counter)
     _installed = True
